@@ -628,6 +628,21 @@ pub fn eval(ms: &ModuleSet, stream_salt: u64) -> Verdict {
     if let Some((kind, d)) = accounting(ms, &base, &BTreeSet::new()) {
         return Verdict::Fail { key: format!("accounting-base:{kind}"), finding: classify(&kind), what: format!("unaccounted definition: {d}"), observed: json!(d), nontrivial: true };
     }
+    // aliases between type references written in capitals only (they read like class names):
+    // they are type assignments and have to be accounted for like any other
+    {
+        let mut var = ms.clone();
+        for t in ["ZQA ::= INTEGER ( 0 .. 7 )", "ZQB ::= ZQA", "ZQ-1 ::= ZQB", "Zq-Mixed ::= ZQ-1", "ZQC ::= Zq-Mixed"] {
+            var.modules[0].items.push(raw(t.split_whitespace().next().unwrap(), t, "allcaps-alias"));
+        }
+        if let Ok(vc) = compile(&var) {
+            if let Some((kind, d)) = accounting(&var, &vc, &BTreeSet::new()) {
+                if classify(&kind).is_none() {
+                    return Verdict::Fail { key: format!("accounting-alias:{kind}"), finding: None, what: format!("unaccounted definition next to all-capitals aliases: {d}"), observed: json!({"variant": print(&var), "detail": d}), nontrivial: true };
+                }
+            }
+        }
+    }
     // replacement choices are a pure function of the model (so that shrinking re-derives them)
     let h = crate::ev::hash_str(&print(ms)) ^ stream_salt;
     let seeds: Vec<u32> = (0..64).map(|i| ((h.rotate_left(i * 7) ^ (i as u64).wrapping_mul(0x9e3779b97f4a7c15)) & 0xffff_ffff) as u32).collect();
